@@ -1613,3 +1613,82 @@ func scVerifyOverlap(r *rng) *cluster {
 }
 
 func init() { scenarioFamilies[19] = scVerifyOverlap }
+
+// ---------------------------------------------------------------- family 20: a deposed leader whose replication is still running (C03, C01)
+// Three voters, one-hour election timers, CommitTimeout 5 ms (the replication goroutines wake up on their own).
+// A leads term T and is cut off with an uncommitted tail. B is elected for T+1 by C, commits and ACKNOWLEDGES entries at
+// the tail's indexes. The link A -> C is repaired and a vote request of term T+1 reaches A, whose stable store answers
+// its next read of LastVoteTerm slowly: A has adopted T+1 and is Follower, but runLeader has not yet stopped the
+// replication goroutines. Whatever they send in that window must not be accepted by C: it comes from a server that was
+// never elected for T+1, and C holds acknowledged entries there. The history monitors (acknowledged entry replaced,
+// committed entry deleted, two leaders in a term) decide.
+func scDeposedStillSending(r *rng) *cluster {
+	c := basicCluster(clusterOpts{voters: 3, trailing: 100, maxAppend: 4, commitTimeout: 5 * time.Millisecond})
+	ids := append([]uint64(nil), c.ids...)
+	for i := range ids {
+		j := r.intn(i + 1)
+		ids[i], ids[j] = ids[j], ids[i]
+	}
+	A, B, C := ids[0], ids[1], ids[2]
+	if !c.elect(A, time.Second) {
+		return c
+	}
+	pay := uint64(9500)
+	pay++
+	c.call(A, "apply", pay, 0).wait(300 * time.Millisecond)
+	c.settle(200 * time.Millisecond)
+	T := c.nodes[A].r.CurrentTerm()
+	c.net.setBoth(A, B, linkDown)
+	c.net.setBoth(A, C, linkDown)
+	for i := 0; i < 2; i++ {
+		pay++
+		c.call(A, "apply", pay, 0) // the uncommitted tail of term T
+	}
+	time.Sleep(20 * time.Millisecond)
+	l2 := c.electAmong(r, []uint64{B, C}, B)
+	if l2 == nil {
+		c.heal()
+		c.settle(300 * time.Millisecond)
+		return c
+	}
+	if l2.id == C {
+		B, C = C, B // whichever of the two won is "B"
+	}
+	for i := 0; i < 2; i++ {
+		pay++
+		c.call(B, "apply", pay, 0).wait(300 * time.Millisecond) // acknowledged by B with C's copy
+	}
+	if c.nodes[A].r.State() != raft.Leader || c.nodes[A].r.CurrentTerm() != T || c.nodes[C].r.CurrentTerm() <= T {
+		c.heal()
+		c.settle(300 * time.Millisecond)
+		return c
+	}
+	T1 := c.nodes[C].r.CurrentTerm()
+	// A's next read of its vote record is slow; A -> C works again; a vote request of term T1 reaches A
+	st := c.nodes[A].stable
+	st.mu.Lock()
+	st.readDelay = map[string]time.Duration{"LastVoteTerm": 60 * time.Millisecond}
+	st.mu.Unlock()
+	c.net.set(A, C, linkUp)
+	if ta := c.nodes[A].curTrans(); ta != nil {
+		ch := make(chan raft.RPCResponse, 1)
+		req := &raft.RequestVoteRequest{RPCHeader: header(C, C), Term: T1, Candidate: []byte(addrStr(C)), LastLogIndex: 1, LastLogTerm: 1, LeadershipTransfer: true} // a transfer election ignores "we have a leader"
+		select {
+		case ta.consumer <- raft.RPC{Command: req, RespChan: ch}:
+			select {
+			case <-ch:
+			case <-time.After(500 * time.Millisecond):
+			}
+		case <-time.After(200 * time.Millisecond):
+		}
+	}
+	st.mu.Lock()
+	st.readDelay = nil
+	st.mu.Unlock()
+	time.Sleep(30 * time.Millisecond)
+	c.heal()
+	c.settle(500 * time.Millisecond)
+	return c
+}
+
+func init() { scenarioFamilies[20] = scDeposedStillSending }
